@@ -1,12 +1,15 @@
 package main
 
 import (
+	"encoding/json"
 	"fmt"
 	"math/big"
 	"strings"
 
 	"github.com/ogen-go/ogen"
 	ogenjson "github.com/ogen-go/ogen/json"
+	"github.com/ogen-go/ogen/jsonpointer"
+	"github.com/ogen-go/ogen/jsonschema"
 	"github.com/ogen-go/ogen/openapi/parser"
 
 	"verifharness/internal/lp"
@@ -543,7 +546,7 @@ func jsonValid(s string) bool {
 // enum duplicate detection through the real schema parser
 func c18Enum(r *lp.Run, g *jgen) {
 	n := r.N(300, 5000)
-	safeNums := []string{"0", "1", "2", "10", "1.0", "1e0", "10e-1", "0.5", "5e-1", "-0", "0.0", "100", "1E2", "-1", "-1.0", "2.50", "2.5"}
+	safeNums := []string{"0", "1", "2", "10", "1.0", "1e0", "10e-1", "0.5", "5e-1", "-0", "0.0", "-0.0", "-0e0", "0e0", "100", "1E2", "0.1e3", "-1", "-1.0", "-10e-1", "2.50", "2.5", "25e-1", "0.1e1"}
 	safeStrs := []string{"", "a", "b", "1", "null", "A", "a b"}
 	for i := 0; i < n; i++ {
 		k := 1 + g.r.Intn(5)
@@ -586,6 +589,24 @@ func c18Enum(r *lp.Run, g *jgen) {
 		})
 		r.Case("enum", strings.TrimSpace(sa.String()), got, "enum:"+got, len(members) > 1)
 		r.PropCheck()
+		// the same list handed to the schema parser directly (no YAML front end re-spelling the numbers)
+		raw := &jsonschema.RawSchema{}
+		for _, p := range parts {
+			raw.Enum = append(raw.Enum, json.RawMessage(p))
+		}
+		if kind == 0 {
+			raw.Type = "number"
+		} else if kind == 1 {
+			raw.Type = "string"
+		}
+		gotRaw := lp.Guard(func() string {
+			_, err := jsonschema.NewParser(jsonschema.Settings{}).Parse(raw, jsonpointer.NewResolveCtx(jsonpointer.DummyURL(), jsonpointer.DefaultDepthLimit))
+			if err != nil && strings.Contains(err.Error(), "duplicate enum value") {
+				return "dup"
+			}
+			return "nodup"
+		})
+		r.Case("enum", strings.TrimSpace(sa.String()), gotRaw, "enum-raw:"+gotRaw, len(members) > 1)
 		want := "nodup"
 		for x := range members {
 			for y := range members {
@@ -596,6 +617,9 @@ func c18Enum(r *lp.Run, g *jgen) {
 		}
 		if got != want {
 			r.Fail(lp.PropFail{Property: "C18", What: "enum duplicate detection differs from 'two members are the same value'", Input: map[string]string{"enum": "[" + strings.Join(parts, ",") + "]"}, Observed: got, Expected: want})
+		}
+		if gotRaw != want {
+			r.Fail(lp.PropFail{Property: "C18", What: "enum duplicate detection (RawSchema handed to jsonschema.Parser) differs from 'two members are the same value'", Input: map[string]string{"enum": "[" + strings.Join(parts, ",") + "]"}, Observed: gotRaw, Expected: want})
 		}
 	}
 }
